@@ -17,6 +17,9 @@ TEXT_HAZARDS = [
     "x = 'tab\there'\n",
     "x = 1 # trailing comment   \n",
     "\n\n\nx = 1\n\n\n",
+    # constants whose JSON form needs the special encodings (non-finite floats inside complex numbers, huge ints, bytes)
+    "x = [1e999j, -1e999j, 1e999j * 0, 2 + 1e999j, 1e999, -(1e999 - 1e999), 2**70, -0.0]\n",
+    "def f(v=(1e999j, 2**70, b'\\xff', -0.0)):\n    return v in {1e999j, 0j, ...}\n",
 ]
 
 # Program files as raw bytes: everything `python file.py` accepts is a valid program for the CLI's file source.
